@@ -87,6 +87,8 @@ def flows():
     rg = np.zeros((3, 3))
     rg[0, 2], rg[2, 0] = 1.0, -1.0
     out["rigid"] = _const_flow("rigid", rg)
+    # shear that fades into a pure spin: the strain rate is exactly zero for t >= 0.3
+    out["tospin"] = Flow("tospin", lambda t, x: max(0.0, 1.0 - t / 0.3) * ss + rg, lambda t: np.zeros(3))
     return out
 
 
